@@ -413,13 +413,6 @@ func verifClassify(l *verifLayer, x verifLine, dbRes string) string {
 		if x.args == "-" && verifHasRootEntry(l) && verifNlinkOffByOne(x.res, dbRes) {
 			return "root-entry-nlink"
 		}
-	case "readpre":
-		if strings.HasPrefix(x.res, "ok") && strings.HasPrefix(dbRes, "err") && verifSameFileChunksShareStream(l) {
-			return "db-prereader-multi-chunk-stream"
-		}
-		if strings.HasPrefix(x.res, "err") && strings.HasPrefix(dbRes, "ok") && verifStreamAtOffsetZeroWithEmptyFile(l) {
-			return "mem-prereader-stream-at-offset-0"
-		}
 	}
 	return ""
 }
@@ -482,46 +475,6 @@ func verifOnlyFieldDiffers(a, b, field string) bool {
 		}
 	}
 	return n == 1
-}
-
-// verifStreamAtOffsetZeroWithEmptyFile: a data entry lives in the stream that starts at blob offset 0
-// (Offset == 0, InnerOffset > 0) and the TOC also has an empty regular file, whose omitted Offset
-// reads as 0 too.
-func verifStreamAtOffsetZeroWithEmptyFile(l *verifLayer) bool {
-	data0, empty := false, false
-	for i := range l.ents {
-		e := &l.ents[i]
-		if (e.Type == "reg" && e.Size > 0 || e.Type == "chunk") && e.Offset == 0 {
-			data0 = true
-		}
-		if e.Type == "reg" && e.Size == 0 && e.Offset == 0 {
-			empty = true
-		}
-	}
-	return data0 && empty
-}
-
-// verifSameFileChunksShareStream: some file has two chunks stored in the same compressed stream.
-func verifSameFileChunksShareStream(l *verifLayer) bool {
-	file := -1
-	seen := map[int64]bool{}
-	for i := range l.ents {
-		e := &l.ents[i]
-		if e.Type == "reg" {
-			file = i
-			seen = map[int64]bool{}
-		}
-		if ((e.Type == "reg" && e.Size > 0) || e.Type == "chunk") && file >= 0 {
-			if seen[e.Offset] {
-				return true
-			}
-			seen[e.Offset] = true
-		}
-		if e.Type != "reg" && e.Type != "chunk" {
-			file = -1
-		}
-	}
-	return false
 }
 
 // verifDiffField names the first differing field of two result lines (e.g. stat:nlink).
@@ -588,6 +541,10 @@ func (s *verifSession) openLayer(l *verifLayer) *verifOpen {
 	out.Count("open-db-" + res(o.dbErr))
 	if (o.memErr == nil) != (o.dbErr == nil) {
 		sig := "accept-reject-differ" + verifClassSuffix(l)
+		if l.class == "nonconf" && o.memErr != nil && o.dbErr == nil && verifHardlinkSourceHasChildren(l) {
+			// whatever the generator called the layer: the input class is the one of f3cca50
+			sig = "accept-reject-differ:hardlink-source-has-children"
+		}
 		if l.class == "cand" && len(l.candidates) > 0 {
 			sig = l.candidates[0] // every disagreement of a candidate layer carries the candidate's name
 		}
@@ -601,6 +558,36 @@ func (s *verifSession) openLayer(l *verifLayer) *verifOpen {
 	return o
 }
 
+// verifHardlinkSourceHasChildren: some hardlink resolves (by names) to an entry whose name is a
+// proper prefix of another entry's name.
+func verifHardlinkSourceHasChildren(l *verifLayer) bool {
+	byName := map[string]*verifEnt{}
+	for i := range l.ents {
+		if l.ents[i].Type != "chunk" {
+			byName[verifClean(l.ents[i].Name)] = &l.ents[i]
+		}
+	}
+	for i := range l.ents {
+		if l.ents[i].Type != "hardlink" {
+			continue
+		}
+		e := &l.ents[i]
+		for n := 0; e != nil && e.Type == "hardlink" && n <= len(l.ents); n++ {
+			e = byName[verifClean(e.LinkName)]
+		}
+		if e == nil || e.Type == "hardlink" {
+			continue
+		}
+		src := verifClean(e.Name) + "/"
+		for k := range byName {
+			if strings.HasPrefix(k, src) {
+				return true
+			}
+		}
+	}
+	return false
+}
+
 func verifClassSuffix(l *verifLayer) string {
 	if l.class == "conf" {
 		return ""
@@ -609,8 +596,6 @@ func verifClassSuffix(l *verifLayer) string {
 	switch l.variant {
 	case "hardlink-source-gets-children-later":
 		return ":hardlink-source-has-children"
-	case "chunk-before-reg", "chunk-after-dir":
-		return ":chunk-first"
 	}
 	if l.variant != "" {
 		return ":" + l.variant
@@ -648,6 +633,7 @@ func (s *verifSession) dumpBoth(o *verifOpen, readAll bool) {
 			out.Fail("surface-inconsistent:db", fmt.Sprintf("layer %s [%s]: %s", o.tag, l.label, in))
 		}
 	}
+	s.cloneCheck(o)
 	if o.mem == nil || o.db == nil || o.dbClosed {
 		return
 	}
@@ -694,20 +680,55 @@ func (s *verifSession) dumpBoth(o *verifOpen, readAll bool) {
 				if len(want) > 0 {
 					exp = fmt.Sprintf("ok %d %x", len(want), sha256.Sum256(want))
 				}
-				if x.res != exp && x.verb == "readpre" && d == o.dbDump && strings.HasPrefix(x.res, "err") && verifSameFileChunksShareStream(l) {
-					out.Count("db-prereader-multi-chunk-stream")
-					continue // reported once by the store comparison under its own signature
-				}
-				if x.res != exp && x.verb == "readpre" && d == o.memDump && strings.HasPrefix(x.res, "err") && verifStreamAtOffsetZeroWithEmptyFile(l) {
-					out.Count("mem-prereader-stream-at-offset-0")
-					continue // reported once by the store comparison under its own signature
-				}
 				if x.res != exp {
 					out.Fail("bytes-differ", fmt.Sprintf("layer %s [%s]: %s %q: got %s want %s", o.tag, l.label, x.verb, p, x.res, exp))
 				}
 				out.Count("bytes-checked")
 			}
 		}
+	}
+}
+
+// cloneCheck: a Clone over another SectionReader of the same blob must be the same filesystem:
+// same root id, same TOC digest, same dump (file bytes included).  Clones are not closed: a db
+// clone shares the filesystem bucket of its origin.
+func (s *verifSession) cloneCheck(o *verifOpen) {
+	check := func(store string, r metadata.Reader, orig *verifDumper) {
+		if r == nil || orig == nil {
+			return
+		}
+		res := "same"
+		c, err := r.Clone(verifSR(o.l.blob))
+		if err != nil {
+			res = "err"
+		} else {
+			if c.RootID() != r.RootID() {
+				res = "rootid"
+			} else if c.TOCDigest() != r.TOCDigest() {
+				res = "tocdigest"
+			} else {
+				cd := verifDump(c, o.l, true)
+				if len(cd.lines) != len(orig.lines) {
+					res = "dump"
+				} else {
+					for i := range cd.lines {
+						if cd.lines[i] != orig.lines[i] {
+							res = "dump:" + cd.lines[i].verb
+							break
+						}
+					}
+				}
+			}
+		}
+		s.out.Emit(fmt.Sprintf("clone %s %s", store, o.tag), res)
+		s.out.Count("clone-" + store)
+		if res != "same" {
+			s.out.Fail("clone-differs:"+store+":"+res, fmt.Sprintf("layer %s [%s]: Clone of the %s reader differs in %s", o.tag, o.l.label, store, res))
+		}
+	}
+	check("mem", o.mem, o.memDump)
+	if !o.dbClosed {
+		check("db", o.db, o.dbDump)
 	}
 }
 
@@ -865,6 +886,11 @@ func TestVerifC05(t *testing.T) {
 
 	var layers []*verifLayer
 	layers = append(layers, verifRegressionScenarios()...)
+	bl, err := verifBuilderScenarios() // inputs of 46fe897 and 8686934: must agree now
+	if err != nil {
+		t.Fatalf("builder scenarios: %v", err)
+	}
+	layers = append(layers, bl...)
 	layers = append(layers, verifNonConformingScenarios()...)
 	if os.Getenv("VERIF_ONLY_SCENARIOS") != "" {
 		n = 0
@@ -902,11 +928,6 @@ func TestVerifC05Known(t *testing.T) {
 	defer os.RemoveAll(dir)
 	n := verifutil.EnvInt("VERIF_N", 20)
 	var layers []*verifLayer
-	bl, err := verifBuilderScenarios()
-	if err != nil {
-		t.Fatalf("builder scenarios: %v", err)
-	}
-	layers = append(layers, bl...)
 	layers = append(layers, verifCandidateScenarios()...)
 	for i := 0; i < n; i++ {
 		compr := []string{"gzip", "zstd", "ext"}[rnd.Pick(3, 2, 1)]
